@@ -58,6 +58,20 @@ let handle ws = match ws with
        let k = bytes_of_hex key and chunks = chunks_of c in
        if k = [] then "ERR" else both (impl k chunks) (hmac_spec h (nat_of_int b) k (List.concat chunks))
      | None -> "ERR")
+  | ["hmacv"; alg; key; c; mac] ->
+    (match hfun alg with
+     | Some (h, b, impl) ->
+       let k = bytes_of_hex key and chunks = chunks_of c and mc = bytes_of_hex mac in
+       if k = [] then "ERR" else
+       let vi = mac_verify (impl k chunks) mc and vs = (mc = hmac_spec h (nat_of_int b) k (List.concat chunks)) in
+       if vi <> vs then "MODEL-IMPL-SPEC-DIFFER" else if vi then "ACCEPT" else "REJECT"
+     | None -> "ERR")
+  | ["sm3dg"; key; c] ->
+    let k = if key = "null" then None else Some (bytes_of_hex key) and chunks = chunks_of c in
+    (match sm3_digest_api k chunks, sm3_digest_api_spec k (List.concat chunks) with
+     | Some i, Some s -> both i s
+     | None, None -> "ERR"
+     | _ -> "MODEL-IMPL-SPEC-DIFFER")
   | ["hmac1"; alg; key; m] ->
     (match hfun alg with
      | Some (h, b, impl) ->
